@@ -187,7 +187,7 @@ def step (s : St) (l : Label) : Step St :=
     -- `SharedTaskState::waitable_unregister`
     if !userPc s.pc then .panic "model: user code cannot run here" []
     else if s.sharedGone then .panic "model: unregister through a dangling reference" []
-    else .ok { s with waitables := s.waitables.erase w, members := s.members.erase w } [.join w 0]
+    else .ok { s with waitables := (s.waitables.filter (· != w)), members := (s.members.filter (· != w)) } [.join w 0]
   -- ---------------------------------------------------------------- the executor proper
   | .start =>
     match s.pc, s.driver with
@@ -222,11 +222,11 @@ def step (s : St) (l : Label) : Step St :=
     match s.pc with
     | .deliver w _ next =>
       -- `deliver_waitable_event`: leave every set, then the wake-up stream or the registered callback
-      let s1 := { s with members := s.members.erase w }
+      let s1 := { s with members := (s.members.filter (· != w)) }
       let (k, mine) := consume s.wk w
       if mine then .ok { s1 with wk := k, pc := next.pc } [.join w 0]
       else if s.waitables.contains w then
-        .ok { s1 with waitables := s.waitables.erase w, pc := .inCb next } [.join w 0]
+        .ok { s1 with waitables := (s.waitables.filter (· != w)), pc := .inCb next } [.join w 0]
       else .panic "waitables.remove(&waitable).unwrap()" [.join w 0]
     | .setPolling =>
       .ok { s with wk := { s.wk with sleep := Limits.sleepStatePolling }, woken := false, pc := .pollTasks } []
@@ -245,11 +245,11 @@ def step (s : St) (l : Label) : Step St :=
     match s.pc with
     | .cancelWake =>
       (cancelRead s.wk ans).bind fun (k, left) =>
-        .ok { s with wk := k, members := match left with | some r => s.members.erase r | none => s.members,
+        .ok { s with wk := k, members := match left with | some r => (s.members.filter (· != r)) | none => s.members,
                      pc := .setPolling } []
     | .dropCancelWake =>
       (cancelRead s.wk ans).bind fun (k, left) =>
-        .ok { s with wk := k, members := match left with | some r => s.members.erase r | none => s.members,
+        .ok { s with wk := k, members := match left with | some r => (s.members.filter (· != r)) | none => s.members,
                      drops := s.drops + 1, pc := if s.tasksEmpty then .dropFields else .dropTasks } []
     | _ => .panic "model: cancelRead out of place" []
   | .pollDone ready empty =>
